@@ -23,13 +23,13 @@ namespace IstioModel.C04
     send failed). -/
 inductive DOp
   | req (r : DReq)
-  | send (nonce : String) (ok : Bool)
+  | send (nonce : String) (ok : Bool) (gen : List String)   -- `gen`: the names the response carries
 
 /-- The server side of the exchange (named types: sends do not rewrite the recorded names).  `keepSub = false`
     is the code before the repairs of `shouldRespondDelta` (ea06a0f, a581d69). -/
 def runOp (keepSub : Bool) (t : Ty) (s : State) : DOp → State
   | .req r => (shouldRespondDeltaG true keepSub keepSub s r).state
-  | .send n ok => sendDelta s t n none ok
+  | .send n ok gen => sendDelta s t n (sentNames t gen) ok
 
 def runOps (keepSub : Bool) (t : Ty) (s : State) (ops : List DOp) : State := ops.foldl (runOp keepSub t) s
 
@@ -41,14 +41,14 @@ def askStep (m : String → Prop) (r : DReq) : String → Prop :=
 def asked (m : String → Prop) : List DOp → String → Prop
   | [] => m
   | .req r :: ops => asked (askStep m r) ops
-  | .send _ _ :: ops => asked m ops
+  | .send _ _ _ :: ops => asked m ops
 
 /-- Conformance of the requests of a trace: all for the one type, `initial_resource_versions` only on the
     first request of a stream (which precedes the trace). -/
 def ReqsOK (t : Ty) : List DOp → Prop
   | [] => True
   | .req r :: ops => r.ty = t ∧ r.init = [] ∧ ReqsOK t ops
-  | .send _ _ :: ops => ReqsOK t ops
+  | .send _ _ _ :: ops => ReqsOK t ops
 
 /-- One request of ANY shape on a watched, name-recording type: the record becomes the old record with the
     carried change applied; nothing else about the request matters. -/
@@ -118,13 +118,14 @@ theorem asked_congr (m m' : String → Prop) (h : ∀ x, m x ↔ m' x) (ops : Li
       intro x
       unfold askStep
       rw [h x]
-    | send n ok => exact ih m m' h
+    | send n ok gen => exact ih m m' h
 
 /-- **Record = what the client last asked for (delta, every exchange).**  From any state in which the type
     is watched, after ANY sequence of delta requests - spontaneous, ACK, stale ACK, NACK, each with or without
     a subscription change, in every order - interleaved with any server sends, the server's record of a
-    name-recording type is exactly the fold of the subscription changes the client has sent. -/
-theorem delta_trace_record (t : Ty) (hm : t.managed = false) (ops : List DOp) :
+    name-recording NAMED type (EDS, RDS, SDS, ECDS: a push does not rewrite the record; for wildcard types the record
+    follows what the pushes carry, property C03) is exactly the fold of the subscription changes the client has sent. -/
+theorem delta_trace_record (t : Ty) (hm : t.managed = false) (hwild : t.wildcard = false) (ops : List DOp) :
     ∀ (s : State) (prev : WR), s t = some prev → "*" ∉ prev.names → ReqsOK t ops →
       ∃ w, runOps true t s ops t = some w ∧ ∀ x, x ∈ w.names ↔ asked (· ∈ prev.names) ops x := by
   induction ops with
@@ -143,17 +144,17 @@ theorem delta_trace_record (t : Ty) (hm : t.managed = false) (ops : List DOp) :
       intro x
       rw [hmem2 x]
       exact asked_congr _ _ (fun y => by unfold askStep; exact hmem y) ops x
-    | send n ok =>
+    | send n ok gen =>
       obtain ⟨w, hw, hnames⟩ := sendDelta_names s t n ok prev hprev
       obtain ⟨w2, hw2, hmem2⟩ := ih (sendDelta s t n none ok) w hw (by rw [hnames]; exact hstar) hok
-      refine ⟨w2, by simpa [runOps, runOp] using hw2, ?_⟩
+      refine ⟨w2, by simpa [runOps, runOp, sentNames_named t gen hwild] using hw2, ?_⟩
       intro x
       rw [hmem2 x]
       exact asked_congr _ _ (fun y => by rw [hnames]) ops x
 
 /-- The trace of finding F-C04-2 as a `DOp` list, after the first request (subscribe `a`) created the watch. -/
 def staleOps : List DOp :=
-  [.send "n1" true, .send "n2" true, .req staleAckWithSub, .req ackN2]
+  [.send "n1" true ["a"], .send "n2" true ["a"], .req staleAckWithSub, .req ackN2]
 
 def afterFirst (keepSub : Bool) : State :=
   (shouldRespondDeltaG true keepSub keepSub State.empty
